@@ -320,10 +320,21 @@ def _error_type_installed(parse: ast.FunctionDef) -> tuple[bool, list[str]]:
     Tokenizer(..., KeyValError, ...)` (third positional argument or `error=`) installs it, `<tok> = <other>` loses it,
     `<tok or alias>.error_type = KeyValError` installs it, any other value loses it, `if` joins its two branches with `and`.
     Second component: a trace for the evidence file."""
-    loop = next((n for n in parse.body if isinstance(n, ast.For) and isinstance(n.iter, ast.Name)), None)
+    loop = next((n for n in parse.body if isinstance(n, (ast.For, ast.While))), None)
     if loop is None:
-        raise TranslateError('Keyvalues.parse: no top-level `for ... in <tokenizer>` loop')
-    tok = loop.iter.id
+        raise TranslateError('Keyvalues.parse: no top-level token loop')
+    # the tokenizer variable: what the `for` loop iterates over, else the name a `Tokenizer(...)` call is assigned to before the loop
+    tok = loop.iter.id if isinstance(loop, ast.For) and isinstance(loop.iter, ast.Name) else None
+    if tok is None:
+        for st in parse.body:
+            if st is loop:
+                break
+            for x in ast.walk(st):
+                if isinstance(x, ast.Assign) and len(x.targets) == 1 and isinstance(x.targets[0], ast.Name) and isinstance(x.value, ast.Call) \
+                        and isinstance(x.value.func, ast.Name) and x.value.func.id == 'Tokenizer':
+                    tok = x.targets[0].id
+    if tok is None:
+        raise TranslateError('Keyvalues.parse: cannot tell which variable holds the tokenizer')
     trace: list[str] = []
 
     def is_kve(n: ast.expr) -> bool:
